@@ -165,6 +165,7 @@ class Comparison:
             vres[n] = z3.substitute(vexpr[n], *sub) if sub else vexpr[n]
         self.vres = vres
         vnext = {}
+        self.vclk = {}
         for clk, blk in mod["sync"]:
             p = {}
             sem.local_blocking = True
@@ -174,6 +175,7 @@ class Comparison:
                 if k_ in vnext:
                     self.bad_struct.append("%r assigned in several always blocks" % (k_,))
                 vnext[k_] = v_
+                self.vclk[k_] = clk
         csub = [(env[n], e) for n, e in vres.items()]
         self.vnext = {n: (z3.substitute(e, *csub) if csub else e) for n, e in vnext.items()}
         sres = tr.resolved()
@@ -292,7 +294,7 @@ class Comparison:
             v = state.get(s, inp.get(s))
             if v is not None and s not in tr.comb_targets:
                 sub.append((tr.cur[s], z3.BitVecVal(v, len(s))))
-        for n, var in self.env.items():
+        for n, var in list(self.env.items()) + [(None, x) for x in self.sem.xvars]:
             if isinstance(var, z3.BitVecRef) and var.decl().name().startswith("v$"):
                 sub.append((var, z3.BitVecVal(vals.get(var.decl().name(), 0), var.size())))
         s = div["sig"]
